@@ -169,7 +169,7 @@ def geom_pool():
 
 
 # ---------------------------------------------------------------- in_clip
-CLIPS = [(0, 0), (0, 2), (0, 4), (2, 2), (2, 4), (4, 4), (1, 3)]
+CLIPS = [(0, 0), (0, 2), (0, 4), (2, 2), (2, 4), (4, 4), (1, 3), (-1, 1)]  # the last one starts before its recording does
 MINOV = [0, 0.5, 1, 3]
 REALS = ["TimeStamp", "Point", "MultiPoint", "TimeInterval", "BoundingBox", "LineString", "Polygon", "MultiLineString"]
 
@@ -253,7 +253,12 @@ def run_case(case):
     else:
         cs, ce = case["clip"]
         rec_ = recording(duration=10.0)
-        clip = data.Clip(uuid=U("clip"), recording=rec_, start_time=cs, end_time=ce)
+        try:
+            clip = data.Clip(uuid=U("clip"), recording=rec_, start_time=cs, end_time=ce)
+        except ValueError:  # which clips exist is C04's subject
+            out.vac("in_clip_model")
+            out.klass = "clip_rejected"
+            return out
         G = mkgeom(case["kind"], case["coords"])
         t0, _, t1, _ = gm.extent(case["kind"], case["coords"])
         seen = set()
